@@ -70,7 +70,7 @@ def check_c08(tier):
     if st:
         rep.add_tlc("MC_SxgMsg", st)
     # "... so a signature made here verifies in any conforming implementation and vice versa": the verdicts count too
-    cases = _run_full(rep, "C08", tier, FULL_C08 | {"verify"})
+    cases = _run_full(rep, "C08", tier, FULL_C08 | {"verify", "read back"})
     rep.cov["distinct_nontrivial"] = len(set((c["x"]["ver"], len(c["hdrs"]), len(c["x"]["uri"]), len(c["x"]["sighdr"])) for c in cases.values()))
     for c in list(cases.values())[:3]:
         rep.sample({"ver": c["x"]["ver"], "uri": txt(c["x"]["uri"])[:80], "signature_header": txt(c["x"]["sighdr"])[:160], "header_block_len": len(c["hdrs"]), "file_len": len(c["file"])})
@@ -198,7 +198,7 @@ def _mc_sxg_cfgs(tier):
 
 
 def _ndev(o):
-    base = {"t": "mid", "life": 3600, "method": "GET", "reqhdr": "none", "resphdr": "none", "cc": [], "ccform": "one", "expireshdr": False, "status": 200, "vurl": "same", "ct": True, "integ": "right"}
+    base = {"t": "mid", "life": 3600, "method": "GET", "reqhdr": "none", "resphdr": "none", "cc": [], "ccform": "one", "expireshdr": "none", "status": 200, "vurl": "same", "ct": True, "integ": "right"}
     return sum(1 for k, v in base.items() if o["s"][k] != v)
 
 
@@ -246,7 +246,7 @@ def check_c09(tier):
             if want != c["ok"]:
                 scn = json.loads(c["note"].split(" ", 1)[1])["s"]
                 dev = {k: v for k, v in scn.items() if k != "ver" and v != {"win": "fixed", "decoy": ["none", "none"], "t": "mid", "life": 3600, "method": "GET", "reqhdr": "none", "resphdr": "none", "cc": [], "ccform": "one",
-                                                                         "expireshdr": False, "status": 200, "vurl": "same", "ct": True, "integ": "right"}[k]}
+                                                                         "expireshdr": "none", "status": 200, "vurl": "same", "ct": True, "integ": "right"}[k]}
                 rep.violation("pol:abstract:%s:%s:%s" % (scn["ver"], "accepts" if c["ok"] else "rejects", ",".join(sorted(dev))),
                               "Verify %s a %s exchange with deviations %s, the policy model says %s" % ("accepts" if c["ok"] else "rejects", scn["ver"], dev, "accept" if want else "reject"),
                               {"component": "sxgpol", "scenario": scn, "real": c["ok"], "model": want})
